@@ -5,5 +5,6 @@ CONSTANTS
   Classes = {"none", "field", "id", "splice", "forge"}
   Entries = {"payload", "header"}
   Dropped = {}
+  Lenient = {}
 INVARIANT Inv
 CHECK_DEADLOCK FALSE
